@@ -196,6 +196,10 @@ def scan_term(ctx, r):
     if slash_arm is None:
         r.missing("lexer.rs:'/' arm", LEX)
         return
+    from lib.inline import materialize
+
+    has_loop = lambda inl: any(y["k"] in ("While", "Loop", "For") for y in q.walk(inl["body"]))  # noqa: E731
+    slash_arm = materialize(slash_arm, closures_only=False, pred=has_loop)  # e.g. lexer.skip_rest_of_line()
     loops = [x for x in q.walk(slash_arm["body"]) if x["k"] == "While"]
     r.count("comment skip loops", len(loops), 2, LEX)
     found_block = found_line = False
@@ -264,9 +268,61 @@ def sep(ctx, r):
     st = q.body_stmts(lp[0]["body"])
     first = st[0]
     r.ob(first["k"] == "ExprStmt" and q.show(first["e"]) == "self.skip_newlines()", "parse.rs:parse_delimited_list:newlines-before-element", PARSE, f["l"], "blank lines before each element (and before the closing delimiter) must be skipped", sample="parse_delimited_list: skip_newlines() first")
-    conds = [q.show(x["c"]).replace(" ", "") for x in q.walk(lp[0]["body"]) if x["k"] == "If" and any(y["k"] == "MethodCall" and y["m"] == "consume_token" for y in q.walk(x["t"]))]
-    ok = bool(conds) and "==separator" in conds[0] and "==TokenTag::Newline" in conds[0] and "||" in conds[0]
-    r.ob(ok, "parse.rs:parse_delimited_list:separator-or-newline", PARSE, f["l"], f"after an element either the separator or a newline must be accepted; condition is {conds}", sample="parse_delimited_list: separator || Newline")
+    # what happens after an element, for each kind of next token: the separator, a newline, anything else
+    locs = {b: x["init"] for x in q.walk(lp[0]["body"]) if x["k"] == "Local" and x.get("init") is not None for b in q.pat_bindings(x["pat"])}
+    pi = next((i for i, s_ in enumerate(st) if any(y["k"] == "MethodCall" and y["m"] == "push" for y in q.walk(s_))), None)
+
+    def tagval(e, tag):
+        t = q.show(e).replace(" ", "")
+        if e["k"] == "Path" and e["p"] in locs:
+            return tagval(locs[e["p"]], tag)
+        if t.endswith("current_token().tag()"):
+            return tag
+        if t == "separator":
+            return "sep"
+        if t == "TokenTag::Newline":
+            return "nl"
+        if t == "closing_delimiter":
+            return "close"
+        raise ValueError(t)
+
+    def cnd(c, tag):
+        while c["k"] == "Paren":
+            c = c["e"]
+        if c["k"] == "Binary" and c["op"] in ("&&", "||"):
+            a, b = cnd(c["a"], tag), cnd(c["b"], tag)
+            return (a and b) if c["op"] == "&&" else (a or b)
+        if c["k"] == "Binary" and c["op"] in ("==", "!="):
+            eq = tagval(c["a"], tag) == tagval(c["b"], tag)
+            return eq if c["op"] == "==" else not eq
+        if c["k"] == "Unary" and c.get("op") in ("!", "Not"):
+            return not cnd(c["e"], tag)
+        raise ValueError(q.show(c))
+
+    def run(stmts, tag):
+        """'consume' if the token is consumed and the loop goes on, 'exit' if the loop is left."""
+        for s_ in stmts:
+            e = s_.get("e") if s_["k"] == "ExprStmt" else None
+            if e is None:
+                continue
+            if e["k"] == "If":
+                br = e["t"] if cnd(e["c"], tag) else e.get("e")
+                if br is not None:
+                    got = run(br["stmts"] if br["k"] == "Block" else [{"k": "ExprStmt", "e": br}], tag)
+                    if got:
+                        return got
+            elif e["k"] == "Break":
+                return "exit"
+            elif e["k"] == "MethodCall" and e["m"] == "consume_token":
+                return "consume"
+        return None
+
+    try:
+        got = {tag: run(st[pi + 1:], tag) for tag in ("sep", "nl", "other")} if pi is not None else None
+        ok = got == {"sep": "consume", "nl": "consume", "other": "exit"}
+    except (ValueError, KeyError):
+        got, ok = "not evaluable", False
+    r.ob(ok, "parse.rs:parse_delimited_list:separator-or-newline", PARSE, f["l"], f"after an element either the separator or a newline must be accepted and anything else ends the list; per next token: {got}", sample="parse_delimited_list: separator -> next element, newline -> next element, else -> end")
     # statements: `;` and newline both end a statement
     uses = sum(1 for g, _ in q.iter_items(items) if g["k"] == "Fn" and g.get("body") is not None for x in q.walk(g["body"]) if x["k"] == "MethodCall" and x["m"] == "parse_delimited_list")
     r.count("uses of parse_delimited_list", uses, 5, PARSE)
@@ -297,6 +353,8 @@ def newline_ends_expr(ctx, r):
 
 @rule("LIT-RANGE", ["C30"], "a numeric literal is converted by parsing its whole spelling (sign included) and a spelling that does not fit is a diagnostic: no literal parse is unwrapped, cast or negated after the fact; `_` separators are dropped and digits kept in order")
 def lit_range(ctx, r):
+    from lib.inline import materialize
+
     items = ctx.file_items(PARSE)
     lex = ctx.file_items("abra_core/src/parse/lexer.rs")
     if items is None or lex is None:
@@ -315,7 +373,7 @@ def lit_range(ctx, r):
             ok = False
             if m is not None and (m["e"] is x or q.show(m["e"]) == q.show(x)):
                 errs = [a for a in m["arms"] if "Err" in q.show_pat(a["pat"])]
-                ok = bool(errs) and all(any(y["k"] == "Return" or (y["k"] == "MethodCall" and y["m"] == "push" and "errors" in q.show(y["recv"])) for y in q.walk(a["body"])) and any(y["k"] in ("Path", "Call", "Struct") and "Error::" in (y.get("p") or (q.show(y["f"]) if y["k"] == "Call" else "")) for y in q.walk(a["body"])) for a in errs)
+                ok = bool(errs) and all(any(y["k"] == "Return" or (y["k"] == "MethodCall" and y["m"] == "push" and "errors" in q.show(y["recv"])) or (y["k"] == "Call" and q.show(y["f"]) == "Err") for y in q.walk(a["body"])) and any(y["k"] in ("Path", "Call", "Struct") and "Error::" in (y.get("p") or (q.show(y["f"]) if y["k"] == "Call" else "")) for y in q.walk(a["body"])) for a in errs)
             r.ob(ok, f"parse.rs:{f['name']}:{q.show(x['recv'])[:30]}.parse{x.get('turbofish') or ''}:literal-parse-not-checked", PARSE, x["l"],
                  f"{f['name']}: `{q.show(x)[:60]}` converts a literal's spelling; its failure (a value that does not fit) must be matched and reported as a diagnostic - an unwrap panics the front end, a fallback silently changes the value",
                  sample=f"{f['name']}: {q.show(x)[:40]} matched, Err -> diagnostic")
@@ -328,7 +386,8 @@ def lit_range(ctx, r):
     if hn is None:
         r.missing("Lexer::handle_num", "abra_core/src/parse/lexer.rs")
         return
-    pushes = [x for x in q.walk(hn["body"]) if x["k"] == "MethodCall" and x["m"] == "push" and q.show(x["recv"]) == "num"]
+    hn = materialize(hn, closures_only=False, pred=lambda inl: any(y["k"] in ("While", "Loop", "For") for y in q.walk(inl["body"])))  # digit runs may be scanned by a helper
+    pushes = [x for x in q.walk(hn["body"]) if x["k"] == "MethodCall" and x["m"] == "push" and q.show(x["recv"]).replace("&mut ", "").strip("()") == "num"]
     und = [x for x in pushes if "'_'" in q.show(x["args"][0])]
     guarded = all(any(i["k"] == "If" and "is_ascii_digit" in q.show(i["c"]) and any(y is x for y in q.walk(i["t"])) for i in q.walk(hn["body"])) for x in pushes if q.show(x["args"][0]) == "c")
     r.ob(not und and guarded and len(pushes) >= 4, "lexer.rs:handle_num:separators", "abra_core/src/parse/lexer.rs", hn["l"],
